@@ -56,9 +56,24 @@ where
       | some d => hexDigits true cs (16 * acc + d)
       | none => none
 
-/-- Python `int(s, 16)` on an ASCII string: `none` = ValueError. Returns sign and magnitude. -/
+/-- C `isspace` in the C locale (TAB..CR and the space). -/
+def isCSpace (c : Char) : Bool :=
+  let n := c.toNat
+  (9 ≤ n && n ≤ 13) || n == 32
+
+/-- The white space `int()` skips around a `str`. An ASCII-only string is handed to the C parser
+    as it is, which skips C `isspace` only - not the separators U+001C..U+001F that `str.strip()`
+    removes (`int("1\x1c", 16)` raises ValueError). A string with a non-ASCII character is first
+    rewritten with every `str.isspace()` character replaced by a blank, so there the whole Python
+    white space set is skipped. -/
+def intStrip (s : List Char) : List Char :=
+  if s.all (fun c => c.toNat < 128) then
+    ((s.dropWhile isCSpace).reverse.dropWhile isCSpace).reverse
+  else Py.strip s
+
+/-- Python `int(s, 16)`: `none` = ValueError. Returns sign and magnitude. -/
 def pyIntHex (s : List Char) : Option (Bool × Nat) :=
-  let t := Py.strip s
+  let t := intStrip s
   let (neg, t1) := match t with
     | '-' :: r => (true, r)
     | '+' :: r => (false, r)
